@@ -11,7 +11,9 @@ import (
 	"fmt"
 	"iter"
 	"math/rand"
+	"os"
 	"reflect"
+	"runtime/pprof"
 	"sort"
 	"strings"
 	"sync/atomic"
@@ -26,6 +28,11 @@ import (
 
 func main() {
 	r := common.Start("C02", "model_checking")
+	if pf := os.Getenv("C02_PROF"); pf != "" {
+		f, _ := os.Create(pf)
+		pprof.StartCPUProfile(f)
+		defer pprof.StopCPUProfile()
+	}
 	laySkip = layoutOf(reflect.TypeOf(listz.SkipList[int, int]{}), false)
 	layCmp = layoutOf(reflect.TypeOf(listz.SkipListWithCmp[int, int]{}), true)
 	menu, heights := selfTest(r)
@@ -49,11 +56,12 @@ func main() {
 		jobs = append(jobs, job{space.System{Name: cfg.sysName, Starts: starts, New: mk, Canon: canon}, label})
 	}
 
-	// SkipList: constructed / zero value (start 0) and zero value after Clear (start 1)
-	cNew := newConfig("SkipList/new", "new", ident, []int{0, 1}, menu[:nmenu], heights[:nmenu], levelCap, &laySkip)
-	add(cNew, 1, "SkipList/new", func(s int) space.Instance { return mkSkip(cNew, s) })
-	cZero := newConfig("SkipList/zero", "zero", ident, []int{0, 1}, menu[:nmenu], heights[:nmenu], levelCap, &laySkip)
-	add(cZero, 2, "SkipList/zero", func(s int) space.Instance { return mkSkip(cZero, s) })
+	// SkipList, three start states: NewSkipList() (0), the zero value (1), the zero value after
+	// Clear() (2). One system: states a lazily initialised zero value shares with a constructed list
+	// are searched once; the signature carries the class of the state the failing call ran in
+	// ("zero-value" = golib has not created the generator yet, "initialised" otherwise).
+	cSkip := newConfig("SkipList", "skip", ident, []int{0, 1}, menu[:nmenu], heights[:nmenu], levelCap, &laySkip)
+	add(cSkip, 3, "SkipList/start=new,zero,zero+Clear", func(s int) space.Instance { return mkSkip(cSkip, s) })
 
 	// SkipListWithCmp under every total order of the stored keys (0 below, 4/5 above all of them)
 	for _, p := range permutations(nkeys) {
@@ -63,7 +71,7 @@ func main() {
 
 	// ladder: only the "very high" answer on two keys, no level cap: the top level ratchets up to
 	// the maximum of 32 and back (Set, Remove only).
-	lSkip := newConfig("SkipList/new", "new", []int{1, 2}, []int{0}, menu[3:4], heights[3:4], 0, &laySkip)
+	lSkip := newConfig("SkipList", "skip", []int{1, 2}, []int{0}, menu[3:4], heights[3:4], 0, &laySkip)
 	lSkip.ladder = true
 	add(lSkip, 1, "SkipList/ladder32", func(s int) space.Instance { return mkSkip(lSkip, s) })
 	lCmp := newConfig("SkipListWithCmp", "cmp", []int{2, 1}, []int{0}, menu[3:4], heights[3:4], 0, &layCmp)
@@ -106,6 +114,7 @@ func main() {
 		fmt.Sprintf("small scope: stored keys 1..%d (queries 0..5), values {0,1}, tower heights from the raw-answer menu %v; the 'very high' answer is offered only while the current top level is below %d (0 = answer not in the menu of this tier); separate ladder systems (two keys, only the very high answer, no cap) reach the maximum level 32", nkeys, menu[:nmenu], levelCap),
 		"the list's private *rand.Rand is replaced (reflect+unsafe) by rand.New(scripted Source64) only after golib created it; a nil generator is left nil. The one draw golib makes from its own time-seeded generator (first insert into a lazily initialised zero value, inside the initialising call) is resolved by rejection: the real call is repeated on a fresh replica until the enumerated height class (1 / more than 1) comes out",
 		"SkipListWithCmp comparators: rank in every permutation of the stored keys, query key 0 below and 4/5 above all stored keys; a zero-value SkipListWithCmp has no comparator and is not a start state")
+	pprof.StopCPUProfile()
 	r.Finish("states = distinct canonical dumps of the private object graph (head tower, level, len, node keys/values/tower heights, generator nil/non-nil); every transition is one real method call compared with a sorted-map model, followed by the read-only battery; distinct_nontrivial = number of distinct canonical states over all systems")
 }
 
@@ -228,7 +237,7 @@ const nq = 6 // query keys 0..5
 
 type config struct {
 	sysName  string
-	class    string // "new" | "zero" | "cmp"
+	class    string // "skip" | "cmp"
 	order    []int  // stored keys in ascending comparator order
 	nkeys    int
 	vals     []int
@@ -300,12 +309,12 @@ type (
 
 func mkSkip(cfg *config, start int) *inst[skN, skL] {
 	var l skL
-	switch cfg.class {
-	case "new":
+	switch start {
+	case 0:
 		l = listz.NewSkipList[int, int]()
 	default: // the zero value; nothing is initialised by the harness
 		l = new(listz.SkipList[int, int])
-		if start == 1 {
+		if start == 2 {
 			l.Clear()
 		}
 	}
@@ -370,6 +379,7 @@ type inst[N nodeT, L listT[N]] struct {
 	rng   *rand.Rand
 	hist  []space.Op
 	col   *collector
+	cls   string // class of the state the call in flight started in (part of the signature)
 	mk    func(*config, int) *inst[N, L]
 
 	present [nq]bool
@@ -418,6 +428,22 @@ func (x *inst[N, L]) towerOf(k int) int {
 }
 
 func (x *inst[N, L]) Roots() []any { return []any{x.root} }
+
+// stateClass: "zero-value" while golib has not created the list's generator (the zero value,
+// also after Clear or reads), "initialised" after Init — explicit or lazy.
+func (x *inst[N, L]) stateClass() string {
+	if *x.randp() == nil {
+		return "zero-value"
+	}
+	return "initialised"
+}
+
+var startNames = map[string][]string{
+	"skip": {"NewSkipList()", "zero value", "zero value then Clear()"},
+	"cmp":  {"NewSkipListWithCmp(cmp)", "zero value then Init(cmp)"},
+}
+
+func (x *inst[N, L]) startName() string { return "start " + startNames[x.cfg.class][x.start] }
 
 func (x *inst[N, L]) Abstract() string {
 	var sb strings.Builder
@@ -531,6 +557,7 @@ func (x *inst[N, L]) Apply(op space.Op) *space.Mismatch {
 }
 
 func (x *inst[N, L]) guarded(op space.Op) (mm *space.Mismatch, unc bool, h int) {
+	x.cls = x.stateClass()
 	val, st, p := common.Catch(func() { mm, unc, h = x.step(op) })
 	if p {
 		return x.panicMismatch(val, st, "apply", op.String()), false, 0
@@ -539,8 +566,8 @@ func (x *inst[N, L]) guarded(op space.Op) (mm *space.Mismatch, unc bool, h int) 
 }
 
 func (x *inst[N, L]) panicMismatch(val any, stack, stage, during string) *space.Mismatch {
-	return &space.Mismatch{Sig: common.PanicSite(stack) + "|panic|" + stage,
-		What: fmt.Sprintf("panic %q during %s (%s, start state %d, model %s); golib frames: %s", fmt.Sprint(val), during, x.cfg.describe(), x.start, x.modelString(), golibFrames(stack))}
+	return &space.Mismatch{Sig: common.PanicSite(stack) + "|panic|" + stage + "|" + x.cls,
+		What: fmt.Sprintf("panic %q during %s (%s, %s, model %s); golib frames: %s", fmt.Sprint(val), during, x.cfg.describe(), x.startName(), x.modelString(), golibFrames(stack))}
 }
 
 func golibFrames(stack string) string {
@@ -572,7 +599,7 @@ func (x *inst[N, L]) modelString() string {
 }
 
 func (x *inst[N, L]) mis(sig, format string, a ...any) *space.Mismatch {
-	return &space.Mismatch{Sig: sig, What: fmt.Sprintf(format, a...) + fmt.Sprintf(" [%s, start state %d, model after the step %s]", x.cfg.describe(), x.start, x.modelString())}
+	return &space.Mismatch{Sig: sig + "|" + x.cls, What: fmt.Sprintf(format, a...) + fmt.Sprintf(" [%s, %s, model after the step %s]", x.cfg.describe(), x.startName(), x.modelString())}
 }
 
 // step executes one operation on the real list and on the model (transition oracle).
@@ -660,33 +687,49 @@ func (x *inst[N, L]) step(op space.Op) (mm *space.Mismatch, unc bool, height int
 
 func (x *inst[N, L]) Check() *space.Mismatch {
 	var mm *space.Mismatch
-	what := "battery"
+	what := callDesc{name: "battery", n: -1}
+	x.cls = x.stateClass()
 	val, st, p := common.Catch(func() {
 		mm = x.battery(&what)
 		if mm == nil {
-			what = "structural invariants"
+			what = callDesc{name: "structural invariants", n: -1}
 			mm = x.structure()
 		}
 	})
 	if p {
-		return x.panicMismatch(val, st, "check", what)
+		return x.panicMismatch(val, st, "check", what.String())
 	}
 	return mm
 }
 
+// callDesc names the query in flight (formatted only when needed: the battery is the hot path).
+type callDesc struct {
+	name string
+	n    int // number of arguments, -1 = not a call
+	a, b int
+}
+
+func (c callDesc) String() string {
+	switch c.n {
+	case 0:
+		return c.name + "()"
+	case 1:
+		return fmt.Sprintf("%s(%d)", c.name, c.a)
+	case 2:
+		return fmt.Sprintf("%s(%d,%d)", c.name, c.a, c.b)
+	}
+	return c.name
+}
+
 // expect compares what the collector saw with expK[lo:hi] cut after `stop` callbacks.
-func (x *inst[N, L]) expect(entry string, call string, lo, hi, stop int) *space.Mismatch {
+func (x *inst[N, L]) expect(call callDesc, lo, hi, stop int) *space.Mismatch {
 	c := x.col
 	if hi < lo {
 		hi = lo
 	}
 	want := hi - lo
-	class := "full"
-	if stop != never {
-		class = "early-stop"
-		if stop < want {
-			want = stop
-		}
+	if stop != never && stop < want {
+		want = stop
 	}
 	ok := !c.over && c.n == want
 	for i := 0; ok && i < want; i++ {
@@ -712,10 +755,10 @@ func (x *inst[N, L]) expect(entry string, call string, lo, hi, stop int) *space.
 	if c.over {
 		more = " (and more)"
 	}
-	return x.mis(entry+"|wrong-sequence|"+class, "%s with %s enumerated %v%s, want %v", call, stopTxt, got, more, exp)
+	return x.mis(call.name+"|wrong-sequence", "%s with %s enumerated %v%s, want %v", call.String(), stopTxt, got, more, exp)
 }
 
-func (x *inst[N, L]) battery(what *string) *space.Mismatch {
+func (x *inst[N, L]) battery(what *callDesc) *space.Mismatch {
 	c := x.cfg
 	l := x.l
 	col := x.col
@@ -729,11 +772,11 @@ func (x *inst[N, L]) battery(what *string) *space.Mismatch {
 	}
 	en := x.en
 
-	*what = "Len()"
+	*what = callDesc{name: "Len"}
 	if g := l.Len(); g != en {
 		return x.mis("Len|wrong", "Len() = %d, want %d", g, en)
 	}
-	*what = "Head()"
+	*what = callDesc{name: "Head"}
 	h := l.Head()
 	if en == 0 {
 		if h != zero {
@@ -748,12 +791,12 @@ func (x *inst[N, L]) battery(what *string) *space.Mismatch {
 		}
 	}
 	for k := 0; k < nq; k++ {
-		*what = fmt.Sprintf("Get(%d)", k)
+		*what = callDesc{name: "Get", n: 1, a: k}
 		gv, ok := l.Get(k)
 		if ok != x.present[k] || (ok && gv != x.val[k]) {
 			return x.mis("Get|wrong", "Get(%d) = (%d,%v), want (%d,%v)", k, gv, ok, x.val[k], x.present[k])
 		}
-		*what = fmt.Sprintf("GetNode(%d)", k)
+		*what = callDesc{name: "GetNode", n: 1, a: k}
 		n := l.GetNode(k)
 		if (n != zero) != x.present[k] {
 			return x.mis("GetNode|wrong", "GetNode(%d) non-nil = %v, key bound = %v", k, n != zero, x.present[k])
@@ -762,7 +805,7 @@ func (x *inst[N, L]) battery(what *string) *space.Mismatch {
 			return x.mis("GetNode|wrong", "GetNode(%d) = node %d=%d, want %d=%d", k, n.Key(), n.Value(), k, x.val[k])
 		}
 	}
-	*what = "Keys()"
+	*what = callDesc{name: "Keys"}
 	ks := l.Keys()
 	okk := len(ks) == en
 	for i := 0; okk && i < en; i++ {
@@ -771,7 +814,7 @@ func (x *inst[N, L]) battery(what *string) *space.Mismatch {
 	if !okk {
 		return x.mis("Keys|wrong-sequence", "Keys() = %v, want %v", ks, x.expK[:en])
 	}
-	*what = "Values()"
+	*what = callDesc{name: "Values"}
 	vs := l.Values()
 	okv := len(vs) == en
 	for i := 0; okv && i < en; i++ {
@@ -782,7 +825,7 @@ func (x *inst[N, L]) battery(what *string) *space.Mismatch {
 	}
 
 	// stops: after each possible count, then never
-	*what = "All()"
+	*what = callDesc{name: "All"}
 	for stop := 1; stop <= en+1; stop++ {
 		s := stop
 		if stop == en+1 {
@@ -794,11 +837,11 @@ func (x *inst[N, L]) battery(what *string) *space.Mismatch {
 				break
 			}
 		}
-		if mm := x.expect("All", "All()", 0, en, s); mm != nil {
+		if mm := x.expect(*what, 0, en, s); mm != nil {
 			return mm
 		}
 	}
-	*what = "Range()"
+	*what = callDesc{name: "Range"}
 	for stop := 1; stop <= en+1; stop++ {
 		s := stop
 		if stop == en+1 {
@@ -806,7 +849,7 @@ func (x *inst[N, L]) battery(what *string) *space.Mismatch {
 		}
 		col.reset(s)
 		l.Range(col.cb)
-		if mm := x.expect("Range", "Range()", 0, en, s); mm != nil {
+		if mm := x.expect(*what, 0, en, s); mm != nil {
 			return mm
 		}
 	}
@@ -820,7 +863,7 @@ func (x *inst[N, L]) battery(what *string) *space.Mismatch {
 		lower[s] = i
 	}
 	for s := 0; s < nq; s++ {
-		*what = fmt.Sprintf("RangeWithStart(%d)", s)
+		*what = callDesc{name: "RangeWithStart", n: 1, a: s}
 		lo := lower[s]
 		for stop := 1; stop <= en-lo+1; stop++ {
 			st := stop
@@ -829,14 +872,14 @@ func (x *inst[N, L]) battery(what *string) *space.Mismatch {
 			}
 			col.reset(st)
 			l.RangeWithStart(s, col.cb)
-			if mm := x.expect("RangeWithStart", *what, lo, en, st); mm != nil {
+			if mm := x.expect(*what, lo, en, st); mm != nil {
 				return mm
 			}
 		}
 	}
 	for s := 0; s < nq; s++ {
 		for e := 0; e < nq; e++ {
-			*what = fmt.Sprintf("RangeWithRange(%d,%d)", s, e)
+			*what = callDesc{name: "RangeWithRange", n: 2, a: s, b: e}
 			lo, hi := lower[s], lower[e]
 			if hi < lo {
 				hi = lo
@@ -848,7 +891,7 @@ func (x *inst[N, L]) battery(what *string) *space.Mismatch {
 				}
 				col.reset(st)
 				l.RangeWithRange(s, e, col.cb)
-				if mm := x.expect("RangeWithRange", *what, lo, hi, st); mm != nil {
+				if mm := x.expect(*what, lo, hi, st); mm != nil {
 					return mm
 				}
 			}
@@ -925,31 +968,52 @@ func (x *inst[N, L]) structure() *space.Mismatch {
 
 // probeHeight inserts six keys, each with the same raw answer, and returns the tower of the last
 // one: min(randomLevel(word), 7), because the list level grows by at most one per insert.
-func probeHeight(mk func(*config) space.Instance, towerOf func(space.Instance, int) int, lay *layout, class string, word uint64, useDefault bool) int {
-	cfg := newConfig("probe", class, []int{1, 2, 3, 4, 5}, []int{0}, []uint64{word}, []int{0}, 0, lay)
+// A failure of golib during the probe is returned, not hidden: it is a violation like any other.
+func probeHeight(mk func(*config) space.Instance, towerOf func(space.Instance, int) int, sysName string, lay *layout, class string, word uint64, useDefault bool) (int, *probeFailure) {
+	cfg := newConfig(sysName, class, []int{1, 2, 3, 4, 5}, []int{0}, []uint64{word}, []int{0}, 0, lay)
 	x := mk(cfg)
+	var seq []string
 	for k := 0; k < nq; k++ {
 		op := space.Op{Name: "Set", Args: []int{k, 0, 0}}
 		if useDefault {
 			op.Args = op.Args[:2]
 		}
-		if mm := x.Apply(op); mm != nil {
-			common.Infra("self test: %s", mm.Error())
+		seq = append(seq, op.String())
+		mm := x.Apply(op)
+		if mm == nil {
+			mm = x.Check()
+		}
+		if mm != nil {
+			return 0, &probeFailure{sysName, mm, seq, word}
 		}
 	}
-	return towerOf(x, nq-1)
+	return towerOf(x, nq-1), nil
+}
+
+type probeFailure struct {
+	sys  string
+	mm   *space.Mismatch
+	seq  []string
+	word uint64
 }
 
 func selfTest(r *common.Run) ([]uint64, []int) {
+	var failed *probeFailure
 	type probe func(word uint64, useDefault bool) int
+	wrap := func(h int, f *probeFailure) int {
+		if f != nil && failed == nil {
+			failed = f
+		}
+		return h
+	}
 	probes := map[string]probe{
 		"SkipList": func(w uint64, d bool) int {
-			return probeHeight(func(c *config) space.Instance { return mkSkip(c, 0) },
-				func(i space.Instance, k int) int { return i.(*inst[skN, skL]).towerOf(k) }, &laySkip, "new", w, d)
+			return wrap(probeHeight(func(c *config) space.Instance { return mkSkip(c, 0) },
+				func(i space.Instance, k int) int { return i.(*inst[skN, skL]).towerOf(k) }, "SkipList", &laySkip, "skip", w, d))
 		},
 		"SkipListWithCmp": func(w uint64, d bool) int {
-			return probeHeight(func(c *config) space.Instance { return mkCmp(c, 0) },
-				func(i space.Instance, k int) int { return i.(*inst[cmN, cmL]).towerOf(k) }, &layCmp, "cmp", w, d)
+			return wrap(probeHeight(func(c *config) space.Instance { return mkCmp(c, 0) },
+				func(i space.Instance, k int) int { return i.(*inst[cmN, cmL]).towerOf(k) }, "SkipListWithCmp", &layCmp, "cmp", w, d))
 		},
 	}
 	// Derived from randomLevel: k = Uint64() & (2^32-1); level = ((32 - bits.Len64(k)) & 31) + 1.
@@ -958,25 +1022,20 @@ func selfTest(r *common.Run) ([]uint64, []int) {
 	source := "read from randomLevel"
 	static := true
 	var got []int
-	_, _, p := common.Catch(func() {
-		for _, name := range []string{"SkipList", "SkipListWithCmp"} {
-			got = got[:0]
-			for i, w := range menu {
-				g := probes[name](w, false)
-				got = append(got, g)
-				if g != want[i] {
-					static = false
-				}
-			}
-			if probes[name](0, true) != 1 {
+	for _, name := range []string{"SkipList", "SkipListWithCmp"} {
+		got = got[:0]
+		for i, w := range menu {
+			g := probes[name](w, false)
+			got = append(got, g)
+			if g != want[i] {
 				static = false
 			}
 		}
-	})
-	if p {
-		common.Infra("self test of the scripted generator panicked")
+		if probes[name](0, true) != 1 {
+			static = false
+		}
 	}
-	if !static {
+	if !static && failed == nil {
 		// randomLevel was edited: derive a menu with the same meaning by probing single-bit words
 		cands := []uint64{0, ^uint64(0)}
 		for b := 63; b >= 0; b-- {
@@ -987,7 +1046,7 @@ func selfTest(r *common.Run) ([]uint64, []int) {
 		best, bestH := uint64(0), 0
 		for _, w := range cands {
 			hs, hc := probes["SkipList"](w, false), probes["SkipListWithCmp"](w, false)
-			if hs != hc {
+			if hs != hc || failed != nil {
 				continue
 			}
 			if !have[hs] {
@@ -997,29 +1056,41 @@ func selfTest(r *common.Run) ([]uint64, []int) {
 				best, bestH = w, hs
 			}
 		}
-		if !have[1] || !have[2] || !have[3] || bestH < 4 {
-			common.Infra("the scripted generator does not control the tower heights any more: static menu %v gives heights %v (want %v) and no single-bit answer yields heights 1, 2, 3 and > 3", menu, got, want)
-		}
-		menu = []uint64{pick[1], pick[2], pick[3], best}
-		want = []int{1, 2, 3, bestH}
-		defaultWord = pick[1]
-		source = "probed (randomLevel no longer maps the static menu to heights 1,2,3,high)"
-		for _, name := range []string{"SkipList", "SkipListWithCmp"} {
-			if probes[name](0, true) != 1 {
-				common.Infra("default answer %#x does not give height 1 on %s", defaultWord, name)
+		if failed == nil {
+			if !have[1] || !have[2] || !have[3] || bestH < 4 {
+				common.Infra("the scripted generator does not control the tower heights any more: static menu %#x gives heights %v (want %v) and no single-bit answer yields heights 1, 2, 3 and > 3", menu, got, want)
+			}
+			menu = []uint64{pick[1], pick[2], pick[3], best}
+			want = []int{1, 2, 3, bestH}
+			defaultWord = pick[1]
+			source = "probed (randomLevel no longer maps the static menu to heights 1,2,3,high)"
+			for _, name := range []string{"SkipList", "SkipListWithCmp"} {
+				if probes[name](0, true) != 1 && failed == nil {
+					common.Infra("default answer %#x does not give height 1 on %s", defaultWord, name)
+				}
 			}
 		}
 	}
-	// shim fidelity: a zero value keeps its nil generator, with and without Clear
-	for s := 0; s < 2; s++ {
-		z := mkSkip(newConfig("probe", "zero", []int{1}, []int{0}, menu, want, 0, &laySkip), s)
-		if s == 0 && (*z.randp() != nil || z.rng != nil || z.level() != 0) {
-			common.Infra("self test: the zero-value start state is not untouched")
-		}
-		if *z.randp() != nil && *z.randp() != z.rng {
-			common.Infra("self test: a generator created by golib was not replaced")
-		}
+	if failed != nil {
+		// golib itself failed on the probe sequence: report it and search with the static menu
+		menu, want = []uint64{1 << 31, 1 << 30, 1 << 29, 1}, []int{1, 2, 3, 7}
+		defaultWord = 1 << 31
+		source = "read from randomLevel, NOT verified: golib failed during the start-up probe (reported as a violation)"
+		r.Violation(failed.sys+"|"+failed.mm.Sig, failed.mm.What+fmt.Sprintf(" — start-up probe: six inserts, every height draw answered %#x", failed.word),
+			map[string]any{"system": failed.sys, "start": 0, "sequence": failed.seq, "raw_answer": fmt.Sprintf("%#x", failed.word)}, "")
 	}
+	// shim fidelity: a zero value keeps its nil generator, with and without Clear
+	common.Catch(func() {
+		for s := 1; s <= 2; s++ {
+			z := mkSkip(newConfig("SkipList", "skip", []int{1}, []int{0}, menu, want, 0, &laySkip), s)
+			if s == 1 && (*z.randp() != nil || z.rng != nil || z.level() != 0) {
+				common.Infra("self test: the zero-value start state is not untouched")
+			}
+			if *z.randp() != nil && *z.randp() != z.rng {
+				common.Infra("self test: a generator created by golib was not replaced")
+			}
+		}
+	})
 	var rows []map[string]any
 	for i, w := range menu {
 		hh := any(want[i])
